@@ -517,6 +517,12 @@ class Executor:
         m = re.match(r"^(.+?)::(\w+)$", t) if "(" not in t and "{" not in t else None
         if m and self.enum_table(m.group(1)) and m.group(2) in self.enum_table(m.group(1)):
             return ("enum", m.group(1), self.enum_table(m.group(1)).index(m.group(2)))
+        m = re.match(r"^(?:std::|core::)?([iu](?:8|16|32|64|128|size))::(MAX|MIN)$", t)
+        if m:
+            srt = sort_of_type(m.group(1))
+            w, sg = srt[1], srt[2]
+            v = ((1 << (w - 1)) - 1 if sg else (1 << w) - 1) if m.group(2) == "MAX" else (-(1 << (w - 1)) if sg else 0)
+            return Val(bvconst(v, w), srt)
         m = re.match(r"^[A-Za-z_][\w:]*(?:::<.*>)?\((.*)\)$", t)
         if m:
             # tuple-struct constant `Name(c0, c1, ..)`: its fields (constants without the `const` keyword)
